@@ -224,6 +224,12 @@ typedef struct
     int n;
     int id;          /* unique id of the record as first emitted */
     int origin;      /* 0 genuine, 1 modified, 2 injected plain, 3 forged with keys, 4 replayed, 5 reflected */
+    int itype;       /* inner (true) record type as sealed by the sender, -1 unknown */
+    int imsg;        /* handshake message type if itype == 22, else -1 */
+    int wsec;        /* sender was write-secure when it sealed this record */
+    uint32_t kfp;    /* fingerprint of the sender's write key when it sealed the record */
+    unsigned char seq[8]; /* sender's write sequence number for the record (TLS) */
+    int forged_ok;   /* forged with the receiver's current read state (always authentic if delivered now) */
 } rec_t;
 
 typedef struct ep
@@ -251,6 +257,9 @@ typedef struct ep
     sb_t dlv;           /* deliveries during the current command */
     sb_t alin;          /* alerts received during the current command */
     sb_t outrecs;       /* record types flushed during the current command */
+    struct { int type, msg, wsec; uint32_t kfp; unsigned char seq[8]; } sealq[512]; /* tags of records sealed but not yet flushed */
+    int sealn;
+    int tagmis;
     int lastrc;
     int sentrc;
     int have_sentrc;
@@ -299,6 +308,7 @@ static rec_t rec_make(const unsigned char *b, int n, int origin)
     r.n = n;
     r.id = g_recid++;
     r.origin = origin;
+    r.itype = -1; r.imsg = -1; r.wsec = 0; r.kfp = 0; memset(r.seq, 0, 8); r.forged_ok = 0;
     return r;
 }
 
@@ -328,9 +338,51 @@ static int rec_hdrlen(ep_t *e) { return e->dtls ? 13 : 5; }
 
 static void (*g_tamper)(ep_t *e, int type, int hs, unsigned char *p, long n);
 
+static uint32_t fnv(uint32_t h, const unsigned char *p, int n)
+{
+    int i;
+    for (i = 0; i < n; i++) { h ^= p[i]; h *= 16777619u; }
+    return h;
+}
+
+static uint32_t wkey_fp(ssl_t *ssl)
+{
+    uint32_t h = 2166136261u;
+    if (!(ssl->flags & SSL_FLAGS_WRITE_SECURE)) return 0;
+    if (USING_TLS_1_3(ssl))
+    {
+        if (ssl->sec.wKeyptr) h = fnv(h, ssl->sec.wKeyptr, 16);
+        h = fnv(h, ssl->sec.tls13WriteIv, 12);
+    }
+    else
+    {
+        h = fnv(h, ssl->sec.writeKey, 16);
+        h = fnv(h, ssl->sec.writeMAC, 20);
+    }
+    return h ? h : 1;
+}
+
+static uint32_t rkey_fp(ssl_t *ssl)
+{
+    uint32_t h = 2166136261u;
+    if (!(ssl->flags & SSL_FLAGS_READ_SECURE)) return 0;
+    if (USING_TLS_1_3(ssl))
+    {
+        if (ssl->sec.rKeyptr) h = fnv(h, ssl->sec.rKeyptr, 16);
+        h = fnv(h, ssl->sec.tls13ReadIv, 12);
+    }
+    else
+    {
+        h = fnv(h, ssl->sec.readKey, 16);
+        h = fnv(h, ssl->sec.readMAC, 20);
+    }
+    return h ? h : 1;
+}
+
 static void verif_hook(int ev, void *ssl, long a, long b, void *p, long n)
 {
     ep_t *e = ep_by_ssl(ssl);
+    if (!e && g_cur_cb_ep && g_cur_cb_ep->ssl == NULL) e = g_cur_cb_ep;   /* session being created */
     if (!e) return;
     switch (ev)
     {
@@ -338,7 +390,8 @@ static void verif_hook(int ev, void *ssl, long a, long b, void *p, long n)
         sb_printf(&e->sub, "%s{\"k\":\"G\",\"t\":\"%s\",\"x\":0,\"n\":0}", e->sub.n ? "," : "", hs_name((int) a));
         break;
     case MXV_HS_ACCEPT:
-        sb_printf(&e->sub, "%s{\"k\":\"A\",\"t\":\"%s\",\"x\":%d,\"n\":0}", e->sub.n ? "," : "", hs_name((int) a), (b < 0 && b != SSL_PROCESS_DATA) ? -1 : 0);
+        sb_printf(&e->sub, "%s{\"k\":\"A\",\"t\":\"%s\",\"x\":%d,\"n\":0}", e->sub.n ? "," : "", hs_name((int) a),
+            (b < 0 && b != SSL_PROCESS_DATA && b != SSL_ENCODE_RESPONSE && b != SSL_SEND_RESPONSE && b != SSL_NO_TLS_1_3) ? -1 : 0);
         break;
     case MXV_REC_OK:
         sb_printf(&e->sub, "%s{\"k\":\"R\",\"t\":\"%d\",\"x\":%d,\"n\":%ld}", e->sub.n ? "," : "", (int) a, (int) b, n);
@@ -359,8 +412,36 @@ static void verif_hook(int ev, void *ssl, long a, long b, void *p, long n)
             while (k > 0 && pp[k - 1] == 0) k--;
             type = k > 0 ? pp[k - 1] : 0;
         }
-        if (type == 21 && n >= 2) b = ((unsigned char *) p)[1];   /* alert description */
-        sb_printf(&e->sub, "%s{\"k\":\"S\",\"t\":\"%d\",\"x\":%d,\"n\":%ld}", e->sub.n ? "," : "", type, (int) b, n);
+        {
+            ssl_t *s = ssl;
+            int msg = -1, wsec = !!(s->flags & SSL_FLAGS_WRITE_SECURE);
+            long lvl = n;
+            if (type == 22)
+            {
+                if (USING_TLS_1_3(s)) msg = ((unsigned char *) p)[0];
+                else
+                {
+                    int off = (wsec && ACTV_VER(s, v_tls_explicit_iv) && s->enBlockSize > 1) ? s->enBlockSize : 0;
+                    msg = (n > off) ? ((unsigned char *) p)[off] : (int) b;
+                }
+                if (USING_TLS_1_3(s) && !wsec && n > 5 && msg == 22) msg = ((unsigned char *) p)[5]; /* plaintext incl. record header */
+                b = msg;
+            }
+            if (type == 21 && n >= 2)
+            {
+                unsigned char *pp = p;
+                /* TLS 1.1+ CBC: alert plaintext is preceded by the explicit IV */
+                if (!USING_TLS_1_3(s) && wsec && s->enBlockSize > 1 && n >= 2 + s->enBlockSize) pp += s->enBlockSize;
+                b = pp[1]; lvl = pp[0];     /* alert description, level */
+            }
+            if (e->sealn < 512)
+            {
+                e->sealq[e->sealn].type = type; e->sealq[e->sealn].msg = msg; e->sealq[e->sealn].wsec = wsec;
+                e->sealq[e->sealn].kfp = wkey_fp(s); memcpy(e->sealq[e->sealn].seq, s->sec.seq, 8);
+                e->sealn++;
+            }
+            sb_printf(&e->sub, "%s{\"k\":\"S\",\"t\":\"%d\",\"x\":%d,\"n\":%ld}", e->sub.n ? "," : "", type, (int) b, type == 21 ? lvl : n);
+        }
         if (g_tamper) g_tamper(e, type, (int) b, p, n);
         break;
     }
@@ -413,6 +494,18 @@ static void emit_state(sb_t *o, ep_t *e)
         e->sub.n ? e->sub.s : "", e->dlv.n ? e->dlv.s : "", e->alin.n ? e->alin.s : "",
         e->outrecs.n ? e->outrecs.s : "", e->qn, ssl->inlen, ssl->outlen, ssl->insize, ssl->outsize,
         e->rxpos, e->cbcalls);
+    {
+        static const char *kxn[] = { "null", "rsa", "dhe_rsa", "x3", "dhe_psk", "psk", "ecdhe_ecdsa", "ecdhe_rsa", "ecdh_ecdsa", "ecdh_rsa", "tls13" };
+        int t = ssl->cipher ? ssl->cipher->type : 0;
+        int tick = 0;
+#ifdef USE_STATELESS_SESSION_TICKETS
+        if (!e->server && ssl->sid) tick = ssl->sid->sessionTicketState;
+#endif
+        sb_printf(o, ",\"kx\":\"%s\",\"suite\":%d,\"cauth\":%d,\"tick\":%d,\"psk13\":%d,\"early\":%d,\"tagmis\":%d",
+            (t >= 0 && t <= 10) ? kxn[t] : "other", ssl->cipher ? ssl->cipher->ident : 0,
+            !!(ssl->flags & SSL_FLAGS_CLIENT_AUTH), tick, ssl->sec.tls13UsingPsk ? 1 : 0,
+            (int) ssl->tls13EarlyDataStatus, e->tagmis);
+    }
     if (e->have_sentrc)
     {
         sb_printf(o, ",\"src\":\"%s\"", rc_class(e->sentrc));
@@ -485,11 +578,29 @@ static int ep_flush_ex(ep_t *e, int maxbytes, int timeout)
                 }
                 {
                     rec_t r = rec_make(buf + off, rl, 0);
+                    if (e->sealn > 0)
+                    {
+                        r.itype = e->sealq[0].type; r.imsg = e->sealq[0].msg; r.wsec = e->sealq[0].wsec;
+                        r.kfp = e->sealq[0].kfp; memcpy(r.seq, e->sealq[0].seq, 8);
+                        memmove(&e->sealq[0], &e->sealq[1], sizeof(e->sealq[0]) * (e->sealn - 1));
+                        e->sealn--;
+                    }
+                    else if (!(ssl->flags & SSL_FLAGS_WRITE_SECURE) && rl > hl)
+                    {
+                        /* unprotected record that did not pass through the seal hook (TLS 1.3 ClientHello) */
+                        r.itype = buf[off]; r.imsg = buf[off] == 22 ? buf[off + hl] : -1; r.wsec = 0;
+                    }
+                    else
+                    {
+                        e->tagmis++;
+                    }
                     q_insert(e, -1, r);
                     if (e->histn < MAXHIST)
                     {
                         e->hist[e->histn] = rec_make(buf + off, rl, 0);
                         e->hist[e->histn].id = r.id;
+                        e->hist[e->histn].itype = r.itype; e->hist[e->histn].imsg = r.imsg; e->hist[e->histn].wsec = r.wsec;
+                        e->hist[e->histn].kfp = r.kfp; memcpy(e->hist[e->histn].seq, r.seq, 8);
                         e->histn++;
                     }
                     sb_printf(&e->outrecs, "%s%d", e->outrecs.n ? "," : "", buf[off]);
@@ -1049,14 +1160,22 @@ static void do_deliver(ep_t *src, int count, int chunk)
 {
     ep_t *dst = src->peer;
     unsigned char *buf;
-    int total = 0, i, ids0 = -1, origin = 0;
+    int total = 0, i, ids0 = -1, origin = 0, itype = -1, imsg = -1, wsec = 0, kmatch = 0, seqm = 0, auth = 0;
     if (!dst) die("endpoint %s has no peer", src->name);
     if (count > src->qn) count = src->qn;
     if (count <= 0) return;
     for (i = 0; i < count; i++) total += src->q[i].n;
     buf = malloc(total + 1);
     total = 0;
-    ids0 = src->q[0].id;
+    ids0 = src->q[0].id; itype = src->q[0].itype; imsg = src->q[0].imsg; wsec = src->q[0].wsec;
+    if (dst->ssl)
+    {
+        rec_t *r0 = &src->q[0];
+        int og = r0->origin;
+        kmatch = (r0->kfp != 0 && r0->kfp == rkey_fp(dst->ssl));
+        seqm = dst->dtls ? 1 : (memcmp(r0->seq, dst->ssl->sec.remSeq, 8) == 0);
+        auth = (og == 0 || og == 3 || og == 6) && wsec && kmatch && seqm;
+    }
     for (i = 0; i < count; i++)
     {
         rec_t r = q_remove(src, 0);
@@ -1083,8 +1202,8 @@ static void do_deliver(ep_t *src, int count, int chunk)
     }
     if (dst->autoflush) ep_flush(dst, 0);
     emit_begin(&g_out, "deliver", dst);
-    sb_printf(&g_out, ",\"from\":\"%s\",\"nrec\":%d,\"bytes\":%d,\"rtype\":%d,\"rid\":%d,\"origin\":%d",
-        src->name, count, total, total > 0 ? buf[0] : -1, ids0, origin);
+    sb_printf(&g_out, ",\"from\":\"%s\",\"nrec\":%d,\"bytes\":%d,\"rtype\":%d,\"rid\":%d,\"origin\":%d,\"itype\":%d,\"imsg\":\"%s\",\"wsec\":%d,\"kmatch\":%d,\"seqm\":%d,\"auth\":%d",
+        src->name, count, total, total > 0 ? buf[0] : -1, ids0, origin, itype, imsg >= 0 ? hs_name(imsg) : "-", wsec, kmatch, seqm, auth);
     emit_state(&g_out, dst);
     emit_end(&g_out);
     free(buf);
@@ -1194,7 +1313,7 @@ static void emit_adv(const char *ev, ep_t *e, const char *fmt, ...)
     vsnprintf(tmp, sizeof(tmp), fmt, ap);
     va_end(ap);
     emit_begin(&g_out, ev, e);
-    sb_printf(&g_out, "%s%s,\"qn\":%d", tmp[0] ? "," : "", tmp, e->qn);
+    sb_printf(&g_out, "%s%s,\"qn\":%d,\"peer\":\"%s\"", tmp[0] ? "," : "", tmp, e->qn, e->peer ? e->peer->name : "-");
     emit_end(&g_out);
 }
 
@@ -1226,6 +1345,7 @@ static void cmd_adv(char **tok, int ntok)
     {
         int i = idx_arg(e, tok[2]);
         rec_t r = rec_make(e->q[i].b, e->q[i].n, 4);
+        r.itype = e->q[i].itype; r.imsg = e->q[i].imsg; r.wsec = e->q[i].wsec; r.kfp = e->q[i].kfp; memcpy(r.seq, e->q[i].seq, 8);
         q_insert(e, i + 1, r);
         emit_adv("dup", e, "\"idx\":%d", i);
     }
@@ -1292,7 +1412,11 @@ static void cmd_adv(char **tok, int ntok)
             int n = unhex(hx, b + hl, bl);
             if (n < 0) die("bad body hex");
         }
-        q_insert(e, atoi(tok[2]), rec_make(b, hl + bl, 2));
+        {
+            rec_t r = rec_make(b, hl + bl, 2);
+            r.itype = type; r.imsg = (type == 22 && bl > 0) ? b[hl] : -1; r.wsec = 0;
+            q_insert(e, atoi(tok[2]), r);
+        }
         free(b);
         emit_adv("injectrec", e, "\"rtype\":%d,\"blen\":%d", type, bl);
     }
@@ -1323,7 +1447,14 @@ static void cmd_adv(char **tok, int ntok)
         }
         n = forge_record(to, type, body, bl, out, bl + 512, opt_int(tok, ntok, "seqd", 0));
         if (n < 0) die("forge failed");
-        q_insert(e, atoi(tok[2]), rec_make(out, n, 3));
+        {
+            rec_t r = rec_make(out, n, 3);
+            r.itype = type; r.imsg = (type == 22 && bl > 0) ? body[0] : -1;
+            r.wsec = !!(to->ssl->flags & SSL_FLAGS_READ_SECURE);
+            r.kfp = rkey_fp(to->ssl); memcpy(r.seq, to->ssl->sec.remSeq, 8);
+            { int sd = opt_int(tok, ntok, "seqd", 0), k2; for (; sd > 0; sd--) for (k2 = 7; k2 >= 0; k2--) { if (++r.seq[k2]) break; } }
+            q_insert(e, atoi(tok[2]), r);
+        }
         free(body); free(out);
         emit_adv("forge", e, "\"rtype\":%d,\"hst\":\"%s\",\"blen\":%d", type, hst >= 0 ? hs_name(hst) : "-", bl);
     }
@@ -1333,7 +1464,11 @@ static void cmd_adv(char **tok, int ntok)
         int h = atoi(tok[3]);
         if (h < 0) h += e->histn;
         if (h < 0 || h >= e->histn) die("replay: history index out of range (%d)", e->histn);
-        q_insert(e, atoi(tok[2]), rec_make(e->hist[h].b, e->hist[h].n, 4));
+        {
+            rec_t r = rec_make(e->hist[h].b, e->hist[h].n, 4);
+            r.itype = e->hist[h].itype; r.imsg = e->hist[h].imsg; r.wsec = e->hist[h].wsec; r.kfp = e->hist[h].kfp; memcpy(r.seq, e->hist[h].seq, 8);
+            q_insert(e, atoi(tok[2]), r);
+        }
         emit_adv("replay", e, "\"hidx\":%d,\"rtype\":%d", h, e->hist[h].b[0]);
     }
     else if (!strcmp(c, "reflect"))
@@ -1343,7 +1478,11 @@ static void cmd_adv(char **tok, int ntok)
         if (!e->peer) die("reflect: no peer");
         if (h < 0) h += e->histn;
         if (h < 0 || h >= e->histn) die("reflect: history index out of range");
-        q_insert(e->peer, 0, rec_make(e->hist[h].b, e->hist[h].n, 5));
+        {
+            rec_t r = rec_make(e->hist[h].b, e->hist[h].n, 5);
+            r.itype = e->hist[h].itype; r.imsg = e->hist[h].imsg; r.wsec = e->hist[h].wsec; r.kfp = e->hist[h].kfp; memcpy(r.seq, e->hist[h].seq, 8);
+            q_insert(e->peer, 0, r);
+        }
         emit_adv("reflect", e, "\"hidx\":%d,\"rtype\":%d", h, e->hist[h].b[0]);
     }
     else
@@ -1405,7 +1544,12 @@ static void cmd_hsedit(char **tok, int ntok)
         else if (!strcmp(op, "swap")) { int k2 = atoi(tok[4]); rec_t t; if (k2 < 0 || k2 >= nm) die("hsedit swap"); t = msgs[k]; msgs[k] = msgs[k2]; msgs[k2] = t; }
         else if (!strcmp(op, "split")) { /* just re-frame */ }
         else die("hsedit: unknown op");
-        for (i = 0; i < nm; i++) { msgs[i].origin = 1; q_insert(e, first + i, msgs[i]); }
+        for (i = 0; i < nm; i++)
+        {
+            msgs[i].origin = !strcmp(op, "split") ? 6 : 1;
+            msgs[i].itype = 22; msgs[i].imsg = msgs[i].b[hl]; msgs[i].wsec = 0;
+            q_insert(e, first + i, msgs[i]);
+        }
         emit_adv("hsedit", e, "\"op\":\"%s\",\"k\":%d,\"nm\":%d", op, k, nm);
     }
 }
